@@ -185,6 +185,10 @@ func c14Specs(tier string, seed int) []c14Spec {
 		all.Cases = append(all.Cases, c14Case{File: f}, c14Case{Line: l}, c14Case{File: f, Line: l}, c14Case{File: alt1, Line: alt2}, c14Case{Line: l, NoFile: true})
 	}
 	out = append(out, all)
+	// (4b) several runs in ONE session on the same project: what an earlier line carried must not reach a later line
+	for i := 0; i < len(keys); i += 5 {
+		out = append(out, c14Spec{Kind: "session", Key: keys[i], Cases: nil, E2E: strings.Join(keys[i:min(i+5, len(keys))], ",")})
+	}
 	// (5) end to end through complete runs and their result files
 	for _, k := range []string{"EndDate", "OutputIntervall", "ResultFileExt", "AnnualOutputDate", "ResultFileFormat", "NDeposition", "Fertilization"} {
 		out = append(out, c14Spec{Kind: "e2e", E2E: k})
@@ -319,6 +323,10 @@ func c14Run(raw json.RawMessage, c *mc.Ctx) {
 	defer os.RemoveAll(root)
 	if sp.Kind == "e2e" {
 		c14E2E(sp, c, root)
+		return
+	}
+	if sp.Kind == "session" {
+		c14Session(sp, c, root)
 		return
 	}
 	const reps = 12
@@ -543,4 +551,74 @@ func minimalDailyWith(vars ...string) string {
 		}
 	}
 	return b.String()
+}
+
+// c14Session: sequences of runs in one session; every run's effective configuration must follow its own line only.
+func c14Session(sp c14Spec, c *mc.Ctx, root string) {
+	for _, k := range strings.Split(sp.E2E, ",") {
+		for v := 0; v < 2; v++ {
+			// the file holds value v for the key in half of the sequences, nothing in the other half
+			for _, inFile := range []bool{false, true} {
+				fileCase := c14Case{}
+				if inFile {
+					fileCase.File = map[string]int{k: v}
+				}
+				seq := []c14Case{
+					{File: fileCase.File, Line: map[string]int{k: 1 - v}},
+					{File: fileCase.File},
+					{File: fileCase.File, Line: map[string]int{k: v}},
+					{File: fileCase.File},
+				}
+				if e := c14Expected(seq[1], root); e["Dateformat"] == "DateENlong" || k == "Dateformat" || k == "EndDate" {
+					for i := range seq { // month-first format needs an explicit end date valid in both formats
+						if seq[i].File == nil {
+							seq[i].File = map[string]int{}
+						}
+						f := map[string]int{"EndDate": 0}
+						for kk, vv := range seq[i].File {
+							f[kk] = vv
+						}
+						seq[i].File = f
+					}
+				}
+				c14WriteConfig(root, "cfg", seq[0])
+				session := hermes.NewHermesSession()
+				for ri, cs := range seq {
+					exp := c14Expected(cs, root)
+					args := append([]string{"project=cfg", "plotNr=1"}, c14Args(cs)...)
+					var got map[string]string
+					pr := &hermes.VerifProbe{Config: func(g *hermes.GlobalVarsMain, cfg *hermes.Config, hp *hermes.HFilePath) {
+						got = map[string]string{}
+						rv := reflect.ValueOf(*cfg)
+						for _, kk := range c14Keys() {
+							got[kk] = fmt.Sprintf("%v", rv.FieldByName(kk).Interface())
+						}
+						panic(c14Abort{})
+					}}
+					proj.RunSession(session, root, args, fmt.Sprintf("[%d]", ri), pr)
+					c.Trace(1)
+					c.Transition(1)
+					h := mc.NewHasher().S("session").S(k).I(v).I(ri).I(b2i(inFile)).Sum()
+					c.State(h)
+					if ri > 0 {
+						c.NonTrivial(h)
+					}
+					if got == nil {
+						c.Violate("configuration-not-read session", fmt.Sprintf("key %s: run %d of the session did not reach the end of the configuration reader", k, ri+1), nil)
+						break
+					}
+					for _, kk := range c14Keys() {
+						c.Eval(1)
+						if got[kk] != exp[kk] {
+							c.Violate(fmt.Sprintf("value-leaks-between-runs-of-a-session key=%s", kk), fmt.Sprintf("one session, same project, lines %v then this run (line %v, file has %s=%v): effective %s = %q, expected %q",
+								c14Args(seq[0]), c14Args(cs), k, inFile, kk, got[kk], exp[kk]), nil)
+						}
+					}
+				}
+				session.Close()
+			}
+		}
+	}
+	c.Outcome("session-ok")
+	c.Sample(sp)
 }
